@@ -17,6 +17,8 @@ type gen struct {
 	pick   int // number of fields offered inside nested messages
 	seed   int
 	smallPayload int
+	tier string
+	h2seen map[string]bool
 	lightAny bool // nested builders offer no unknown record (decode-step pre-states)
 }
 
@@ -643,8 +645,28 @@ func (g *gen) codecDrivers(m *Message) {
 }
 
 // harnessPerField emits VH_<prop>_<Msg>_<Field> and the H2 variant.
+// wantH2: thorough = every field; quick = the first field of each (wire kind, cardinality) class per message
+func (g *gen) wantH2(prop string, m *Message, f *Field) bool {
+	if g.tier == "thorough" {
+		return true
+	}
+	if f.Card == "map" || (f.Card == "repeated" && f.Kind != "message") {
+		return false
+	}
+	if g.h2seen == nil {
+		g.h2seen = map[string]bool{}
+	}
+	k := prop + "/" + m.GoName + "/" + wireKind(f) + "/" + f.Card
+	if g.h2seen[k] {
+		return false
+	}
+	g.h2seen[k] = true
+	return true
+}
+
 func (g *gen) harnessPerField(prop string, m *Message, f *Field, h2 bool) {
 	n := m.GoName
+	h2 = h2 && g.wantH2(prop, m, f)
 	g.p("func VH_%s_%s_%s() {", prop, n, f.GoName)
 	g.p("\tx := &%s{}", n)
 	g.p("\tvhBuild_%s_%s(x, \"a\", 1)", n, f.GoName)
